@@ -669,6 +669,20 @@ fn c02_grammar(input: &Input, obs: &mut Obs) -> Result<(), Fail> {
     let r = {
         // a few idle (would-block / interrupted) reads in between: they must not change what is
         // accepted, delivered or rejected afterwards
+        // now and then the owner answers what it is handed and writes between reads: what the
+        // connection accepts, delivers and rejects does not depend on it
+        let auto = if s.chance(60) { Some(s.u32() | 1) } else { None };
+        struct Reset;
+        impl Drop for Reset {
+            fn drop(&mut self) {
+                AUTO_RESPOND.with(|c| c.set(None));
+            }
+        }
+        let _reset = Reset;
+        AUTO_RESPOND.with(|c| c.set(auto));
+        if auto.is_some() {
+            obs.label("responses_written_between_reads");
+        }
         let mut sch = sched_from_src(&mut s, &stream, &bounds, 6);
         run_focus("C02", &F_C02, &stream, &reqs, &end, limit, false, &mut sch)?
     };
